@@ -1,6 +1,7 @@
 import AmaranthVerif.Driver.StmtIO
 import AmaranthVerif.Model.FormatDsl
 import AmaranthVerif.Spec.Format
+import AmaranthVerif.Model.PrintJoin
 
 /-!
 # Model driver of C20 (unverified I/O glue)
@@ -10,6 +11,8 @@ Strings travel as atoms `x<hex>.<hex>…` (code points); a result is such an ato
 * `(fmt <spec> <w> <u|s> v*)` → `fmt rej=<ok|reason> ends=<0|1> ; m=… o=… tb=… s=… ; …` per value:
   compiled Print (repaired), compiled Print as found, `eval_format`, Spec text.
 * `(chunks ctx (chunk*) env*)` → `chunks ; m=… o=… tb=… s=… ; …`
+* `(pjoin ctx <sep> <end> (chunk*) ((chunk*)*))` → `pjoin built=<same|differs> clean=<0|1> n=<model chunks>`: the chunks
+  `Print.__init__` built against `printChunks` of the per-argument chunks (structural comparison by `repr`).
 * `(sim ctx (dom pos|neg rst|norst async|sync) <pstmt> (prog item*) (ev c0 c1 r0 r1 v*)*)` →
   `sim ; w=<woken> a=<active edge> m=… o=… s=… d=… ; … ; stop m=… o=… s=… d=…`
 -/
@@ -137,6 +140,20 @@ def handleChunks : Sexp → Option String
       some (" ; ".intercalate ("chunks" :: es.map fun env => fourTexts ctx env chunks))
   | _ => none
 
+def handlePjoin : Sexp → Option String
+  | .list [.atom "pjoin", c, sep, en, .list impl, .list args] => do
+      let ctx ← parseCtx c
+      let sepS ← strOf? sep
+      let endS ← strOf? en
+      let implC ← impl.mapM (parseChunk ctx)
+      let argCs ← args.mapM fun a => match a with
+        | .list cs => cs.mapM (parseChunk ctx)
+        | _ => none
+      let model := printChunks argCs sepS endS
+      let same := toString (repr model) == toString (repr implC)
+      some s!"pjoin built={if same then "same" else "differs"} clean={b01 (cleanForm implC)} n={model.length}"
+  | _ => none
+
 def parseEvent : Sexp → Option Event
   | .list (.atom "ev" :: c0 :: c1 :: r0 :: r1 :: vs) => do
       some ⟨← bool? c0, ← bool? c1, ← bool? r0, ← bool? r1, ← ints? vs⟩
@@ -163,7 +180,7 @@ def handleSim : Sexp → Option String
       some (" ; ".intercalate ("sim" :: rows ++ [stop]))
   | _ => none
 
-def handlers20 : List (Sexp → Option String) := [handleFmt, handleChunks, handleSim]
+def handlers20 : List (Sexp → Option String) := [handleFmt, handleChunks, handlePjoin, handleSim]
 
 def respond20 (line : String) : String :=
   match Sexp.parse line with
